@@ -285,6 +285,21 @@ def check_component(ctx, cell, case):
                           "(B, b.n) input is answered with values that differ from per-block evaluation", CHK)
             except Exception:
                 ctx.cls("layout_multiblock_rejected")
+    # many blocks per row: 2 rows x 67 blocks must equal the 134 blocks decoded as a plain batch (helpers that split long rows into chunks
+    # must put every block back at its place)
+    if case.get("many_blocks") and not comp.get("constraint") and not comp.get("single_block", False):
+        Xm = comp["gen"](np.random.RandomState(case.get("seed", ctx.seed) + 991), 134)
+        try:
+            flat = call(fn, Xm)
+            o = call(fn, Xm.reshape(2, -1))
+        except Exception:
+            ctx.cls("layout_many_blocks_rejected")
+            flat = None
+        if flat is not None:
+            ctx.ev()
+            ref = flat.reshape(2, -1)
+            ctx.check(o.shape == ref.shape and same(o, ref), "C20.b_layout_multiblock", cell, {**ccase, "many_blocks": True, "blocks_per_row": 67}, list(o.shape), list(ref.shape),
+                      "(2, 67.n) input is answered with values that differ from per-block evaluation", CHK)
     # the same values as NON-CONTIGUOUS tensors (a transposed view of a (B2,B1,n) buffer; a strided slice of a wider buffer): same answers
     if not comp.get("constraint"):
         import torch
@@ -320,7 +335,7 @@ def unit_components(ctx, names, n_seeds):
         extra = 3 * n_seeds if name.startswith(("dec_", "polar_")) else 0
         for sd in range(n_seeds + extra):
             rows = [4, 2, 6, 3, 1, 5][sd % 6] if sd < n_seeds else 6
-            check_component(ctx, None, {"component": name, "seed": ctx.seed * 100 + sd, "rows": rows})
+            check_component(ctx, None, {"component": name, "seed": ctx.seed * 100 + sd, "rows": rows, "many_blocks": sd == 0})
 
 
 _LAST = {}
